@@ -23,6 +23,8 @@ inductive PE
   | idx (lb rb : Token) (l i : PE)
   | call0 (fn lp rp : Token)
   | call (fn lp rp : Token) (args : PE)
+  | arr0 (lb rb : Token)
+  | arr (lb rb : Token) (elems : PE)
   | aone (e : PE)
   | acons (e : PE) (comma : Token) (rest : PE)
 
@@ -32,6 +34,8 @@ def PE.isPost : PE → Bool
   | .idx _ _ _ _ => true
   | .call0 _ _ _ => true
   | .call _ _ _ _ => true
+  | .arr0 _ _ => true
+  | .arr _ _ _ => true
   | _ => false
 
 /-- the function of a call, as the parser builds it from the name token -/
@@ -45,6 +49,8 @@ def PE.toExpr : PE → Expr
   | .idx lb _ l i => .idx lb (some l.toExpr) (some i.toExpr) none none
   | .call0 fn lp _ => .call lp none none (fnExpr fn) (some []) none
   | .call fn lp _ a => .call lp none none (fnExpr fn) (some a.toArgs) none
+  | .arr0 lb _ => .arr lb (some [])
+  | .arr lb _ a => .arr lb (some a.toArgs)
   | .aone _ => .brk default
   | .acons _ _ _ => .brk default
 def PE.toArgs : PE → List (Option Expr)
@@ -65,6 +71,8 @@ def PE.WF : PE → Prop
   | .idx lb rb l i => lb.type = .LBRACKET ∧ rb.type = .RBRACKET ∧ l.isPost = true ∧ l.WF ∧ i.WF
   | .call0 fn lp rp => fn.type = .IDENT ∧ (46 : UInt8) ∉ fn.lit ∧ lp.type = .LPAREN ∧ rp.type = .RPAREN
   | .call fn lp rp a => fn.type = .IDENT ∧ (46 : UInt8) ∉ fn.lit ∧ lp.type = .LPAREN ∧ rp.type = .RPAREN ∧ a.WFA
+  | .arr0 lb rb => lb.type = .LBRACKET ∧ rb.type = .RBRACKET
+  | .arr lb rb a => lb.type = .LBRACKET ∧ rb.type = .RBRACKET ∧ a.WFA
   | .aone _ => False
   | .acons _ _ _ => False
 /-- well-formed non-empty ARGUMENT LIST -/
@@ -85,6 +93,8 @@ def pr (p : Nat) : PE → List Token
   | .idx lb rb l i => pr Gen.INDEX l ++ [lb] ++ pr (Gen.LOWEST + 1) i ++ [rb]
   | .call0 fn lp rp => [fn, lp, rp]
   | .call fn lp rp a => [fn, lp] ++ pr 0 a ++ [rp]
+  | .arr0 lb rb => [lb, rb]
+  | .arr lb rb a => [lb] ++ pr 0 a ++ [rb]
   | .aone e => pr (Gen.LOWEST + 1) e
   | .acons e c r => pr (Gen.LOWEST + 1) e ++ [c] ++ pr 0 r
 
@@ -96,6 +106,8 @@ theorem pr_ne_nil (p : Nat) (e : PE) : pr p e ≠ [] := by
   | idx lb rb l i => simp [pr]
   | call0 => simp [pr]
   | call => simp [pr]
+  | arr0 => simp [pr]
+  | arr => simp [pr]
   | aone e ih => simp only [pr]; exact ih _
   | acons e c r => simp [pr]
 
@@ -192,6 +204,18 @@ theorem prefix_step (f q : Nat) (s : PS) (Q : Option Expr → PS → Prop)
   simp only [OK_bind, OK_cur, hl, OK_ite, hfn, runPrefix_eq, OK_nextTok, OK_pure, Bool.false_eq_true, if_false]
   exact h
 
+/-- `[` in prefix position: an array literal — the element list up to `]`, then the operator loop -/
+theorem arr_step (f q : Nat) (s : PS) (Q : Option Expr → PS → Prop)
+    (hlb : (tokAt s s.pos).type = .LBRACKET)
+    (h : OK (parseExpressionList f .RBRACKET) s (fun es s' =>
+          OK (infixLoop (f+1) q (some (.arr (tokAt s s.pos) es))) s' Q)) :
+    OK (parseExpression (f+2) q) s Q := by
+  rw [parseExpression_eq]
+  have hl : ((tokAt s s.pos).type == TT.LET) = false := by rw [hlb]; decide
+  have hfn : lookupLast (tokAt s s.pos).type Gen.prefixFns = some .parseArrayLiteral := by rw [hlb]; decide
+  simp only [OK_bind, OK_cur, hl, OK_ite, hfn, runPrefix_eq, OK_pure, Bool.false_eq_true, if_false]
+  exact h
+
 /-- one turn of the operator loop at `[`: the index is parsed at LOWEST binding power, `]` is expected, and — when
     neither `.` nor `=` follows — the index node is handed back to the operator loop -/
 theorem index_step (f q : Nat) (l : Expr) (s : PS) (Q : Option Expr → PS → Prop)
@@ -254,22 +278,22 @@ theorem call_step (f q : Nat) (fn : Token) (s : PS) (Q : Option Expr → PS → 
   exact h3
 
 /-- `f()` -/
-theorem exprList_empty (f : Nat) (s : PS) (Q : Option (List (Option Expr)) → PS → Prop)
-    (hr : (tokAt s (s.pos + 1)).type = .RPAREN) (h : Q (some []) { s with pos := s.pos + 1 }) :
-    OK (parseExpressionList (f+1) .RPAREN) s Q := by
+theorem exprList_empty (f : Nat) (end_ : TT) (s : PS) (Q : Option (List (Option Expr)) → PS → Prop)
+    (hr : (tokAt s (s.pos + 1)).type = end_) (h : Q (some []) { s with pos := s.pos + 1 }) :
+    OK (parseExpressionList (f+1) end_) s Q := by
   rw [parseExpressionList_eq]
-  have : ((tokAt s (s.pos + 1)).type == TT.RPAREN) = true := by rw [hr]; rfl
+  have : ((tokAt s (s.pos + 1)).type == end_) = true := by rw [hr]; simp
   simp only [OK_bind, OK_peekIs, OK_ite, this, if_true, OK_nextTok, OK_pure]
   exact h
 
 /-- `f(a, …)`: the first argument, then the comma loop, then `)` -/
-theorem exprList_nonempty (f : Nat) (s : PS) (Q : Option (List (Option Expr)) → PS → Prop)
-    (hr : (tokAt s (s.pos + 1)).type ≠ .RPAREN)
+theorem exprList_nonempty (f : Nat) (end_ : TT) (s : PS) (Q : Option (List (Option Expr)) → PS → Prop)
+    (hr : (tokAt s (s.pos + 1)).type ≠ end_)
     (h : OK (parseExpression f Gen.LOWEST >>= fun e => exprListLoop f [e]) { s with pos := s.pos + 1 } (fun l s' =>
-          ((tokAt s' (s'.pos + 1)).type == TT.RPAREN) = true ∧ Q (some l) { s' with pos := s'.pos + 1 })) :
-    OK (parseExpressionList (f+1) .RPAREN) s Q := by
+          ((tokAt s' (s'.pos + 1)).type == end_) = true ∧ Q (some l) { s' with pos := s'.pos + 1 })) :
+    OK (parseExpressionList (f+1) end_) s Q := by
   rw [parseExpressionList_eq]
-  have : ((tokAt s (s.pos + 1)).type == TT.RPAREN) = false := by simpa using hr
+  have : ((tokAt s (s.pos + 1)).type == end_) = false := by simpa using hr
   simp only [OK_bind, OK_peekIs, OK_ite, this, Bool.false_eq_true, if_false, OK_nextTok]
   simp only [OK_bind] at h
   refine OK_conseq h ?_
@@ -314,6 +338,8 @@ def edge (p : Nat) : PE → Token → Prop
   | .idx _ _ _ _, nt => nt.type ≠ .ASSIGN ∧ nt.type ≠ .DOT
   | .call0 _ _ _, nt => nt.type ≠ .DOT ∧ nt.type ≠ .LBRACE
   | .call _ _ _ _, nt => nt.type ≠ .DOT ∧ nt.type ≠ .LBRACE
+  | .arr0 _ _, _ => True
+  | .arr _ _ _, _ => True
   | .aone _, _ => True
   | .acons _ _ _, _ => True
 
@@ -352,6 +378,8 @@ theorem edge_of_le (e : PE) : ∀ (p b : Nat) (nt : Token), e.WF → b ≤ Gen.P
   | idx lb rb l i _ _ => intro p b nt _ _ _ hna hnd _ _; exact ⟨hna, hnd⟩
   | call0 fn lp rp => intro p b nt _ _ _ _ hnd hnb _; exact ⟨hnd, hnb⟩
   | call fn lp rp a _ => intro p b nt _ _ _ _ hnd hnb _; exact ⟨hnd, hnb⟩
+  | arr0 => intros; trivial
+  | arr => intros; trivial
   | aone e _ => intros; trivial
   | acons e c r _ _ => intros; trivial
 
@@ -363,6 +391,8 @@ theorem edge_post (e : PE) (p : Nat) (nt : Token) (h : e.isPost = true) (hna : n
   | idx lb rb l i => exact ⟨hna, hnd⟩
   | call0 => exact ⟨hnd, hnb⟩
   | call => exact ⟨hnd, hnb⟩
+  | arr0 => trivial
+  | arr => trivial
   | bin => cases h
   | pre => cases h
   | aone => cases h
@@ -435,6 +465,21 @@ theorem pr_types' (e : PE) : ∀ p, (e.WF ∨ e.WFA) → ∀ t ∈ pr p e, t.typ
     · subst h1; rw [hlp]; decide
     · exact iha _ (Or.inr ha) t h1
     · subst h1; rw [hrp]; decide
+  | arr0 lb rb =>
+    intro p h t ht
+    have h := h.resolve_right (by simp [PE.WFA])
+    simp only [pr, List.mem_cons, List.not_mem_nil, or_false] at ht
+    rcases ht with h1 | h1
+    · subst h1; rw [h.1]; decide
+    · subst h1; rw [h.2]; decide
+  | arr lb rb a iha =>
+    intro p h t ht
+    have h := h.resolve_right (by simp [PE.WFA])
+    simp only [pr, List.mem_append, List.mem_cons, List.not_mem_nil, or_false] at ht
+    rcases ht with (h1 | h1) | h1
+    · subst h1; rw [h.1]; decide
+    · exact iha _ (Or.inr h.2.2) t h1
+    · subst h1; rw [h.2.1]; decide
   | aone e ih =>
     intro p h t ht
     rcases h with h | h
@@ -503,13 +548,19 @@ theorem atomOf_ne_rparen {c : Token} {x : Expr} (h : atomOf c = some x) : c.type
 theorem prefix_ne_rparen {t : TT} (h : lookupLast t Gen.prefixFns = some .parsePrefixExpression) : t ≠ .RPAREN := by
   intro h0; subst h0; revert h; decide
 
+theorem atomOf_ne_rbracket {c : Token} {x : Expr} (h : atomOf c = some x) : c.type ≠ .RBRACKET := by
+  intro h0; unfold atomOf at h; rw [h0] at h; cases h
+
+theorem prefix_ne_rbracket {t : TT} (h : lookupLast t Gen.prefixFns = some .parsePrefixExpression) : t ≠ .RBRACKET := by
+  intro h0; subst h0; revert h; decide
+
 /-- an expression (and an argument list) never starts with `)` -/
-theorem pr_head (e : PE) : ∀ p, (e.WF ∨ e.WFA) → ∃ t rest, pr p e = t :: rest ∧ t.type ≠ .RPAREN := by
+theorem pr_head (e : PE) : ∀ p, (e.WF ∨ e.WFA) → ∃ t rest, pr p e = t :: rest ∧ t.type ≠ .RPAREN ∧ t.type ≠ .RBRACKET := by
   induction e with
   | atom c x =>
     intro p h
     have h := h.resolve_right (by simp [PE.WFA])
-    exact ⟨c, [], rfl, atomOf_ne_rparen h⟩
+    exact ⟨c, [], rfl, atomOf_ne_rparen h, atomOf_ne_rbracket h⟩
   | bin o lp rp l r ihl _ =>
     intro p h
     have h := h.resolve_right (by simp [PE.WFA])
@@ -517,12 +568,12 @@ theorem pr_head (e : PE) : ∀ p, (e.WF ∨ e.WFA) → ∃ t rest, pr p e = t ::
     obtain ⟨t, rest, ht, hne⟩ := ihl (precOf o.type) (Or.inl hl)
     simp only [pr]
     split
-    · exact ⟨lp, _, rfl, by rw [hlp]; decide⟩
+    · exact ⟨lp, _, rfl, by rw [hlp]; decide, by rw [hlp]; decide⟩
     · exact ⟨t, rest ++ [o] ++ pr (precOf o.type + 1) r, by rw [ht]; simp, hne⟩
   | pre o r _ =>
     intro p h
     have h := h.resolve_right (by simp [PE.WFA])
-    exact ⟨o, _, rfl, prefix_ne_rparen h.1⟩
+    exact ⟨o, _, rfl, prefix_ne_rparen h.1, prefix_ne_rbracket h.1⟩
   | idx lb rb l i ihl _ =>
     intro p h
     have h := h.resolve_right (by simp [PE.WFA])
@@ -531,11 +582,19 @@ theorem pr_head (e : PE) : ∀ p, (e.WF ∨ e.WFA) → ∃ t rest, pr p e = t ::
   | call0 fn lp rp =>
     intro p h
     have h := h.resolve_right (by simp [PE.WFA])
-    exact ⟨fn, _, rfl, by rw [h.1]; decide⟩
+    exact ⟨fn, _, rfl, by rw [h.1]; decide, by rw [h.1]; decide⟩
   | call fn lp rp a _ =>
     intro p h
     have h := h.resolve_right (by simp [PE.WFA])
-    exact ⟨fn, _, rfl, by rw [h.1]; decide⟩
+    exact ⟨fn, _, rfl, by rw [h.1]; decide, by rw [h.1]; decide⟩
+  | arr0 lb rb =>
+    intro p h
+    have h := h.resolve_right (by simp [PE.WFA])
+    exact ⟨lb, _, rfl, by rw [h.1]; decide, by rw [h.1]; decide⟩
+  | arr lb rb a _ =>
+    intro p h
+    have h := h.resolve_right (by simp [PE.WFA])
+    exact ⟨lb, _, rfl, by rw [h.1]; decide, by rw [h.1]; decide⟩
   | aone e ih =>
     intro p h
     have h := h.resolve_left (by simp [PE.WF])
@@ -893,7 +952,7 @@ theorem main_both (e : PE) : MainStmt e ∧ ArgsStmt e := by
       · exact hQC
       · apply exprList_nonempty
         · show (tokAt s (s.pos + 1 + 1)).type ≠ TT.RPAREN
-          rw [hfirst]; exact hne0
+          rw [hfirst]; exact hne0.1
         · show OK (parseExpression g Gen.LOWEST >>= fun e => exprListLoop g ([] ++ [e])) (s.at (s.pos + 1 + 1)) _
           apply iha (s.at (s.pos + 1 + 1)) g [] _ hwa (show EofOK (s.at _) from eo) hata
           · simp only [at_pos, tokAt_at]
@@ -919,6 +978,70 @@ theorem main_both (e : PE) : MainStmt e ∧ ArgsStmt e := by
               rw [show s.pos + (0 + 1 + 1 + (pr 0 a).length + 1) - 1 = s.pos + 1 + 1 + (pr 0 a).length by omega] at this
               rw [hpk]
               exact this
+  | arr0 lb rb =>
+    refine ⟨?_, fun s f acc Q h => by simp [PE.WFA] at h⟩
+    intro q p s f Q hwf hqp hqP eo hat hedge hf K
+    obtain ⟨hlb, hrb⟩ := hwf
+    simp only [pr] at hat K
+    have hrange := At_in_range eo hat (by
+        intro t ht
+        exact pr_types (PE.arr0 lb rb) p ⟨hlb, hrb⟩ t (by simpa only [pr] using ht)) (by simp)
+    simp only [List.length_cons, List.length_nil] at hrange K
+    have h0 : tokAt s s.pos = lb := by simpa using hat 0 (by simp)
+    have h1 : tokAt s (s.pos + 1) = rb := by simpa using hat 1 (by simp)
+    obtain ⟨g, rfl⟩ : ∃ g, f = g + 3 := ⟨f - 3, by simp only [C] at hf; omega⟩
+    apply arr_step (f := g + 1)
+    · rw [h0]; exact hlb
+    · apply exprList_empty
+      · rw [h1]; exact hrb
+      · have := K (g + 2) (by rw [rem_at]; simp only [rem, C] at hf ⊢; omega)
+        rw [h0]
+        simpa [PE.toExpr, PS.at, Nat.add_assoc] using this
+  | arr lb rb a iha =>
+    refine ⟨?_, fun s f acc Q h => by simp [PE.WFA] at h⟩
+    have iha := iha.2
+    intro q p s f Q hwf hqp hqP eo hat hedge hf K
+    obtain ⟨hlb, hrb, hwa⟩ := hwf
+    simp only [pr] at hat K
+    have La := List.length_pos_iff.mpr (pr_ne_nil 0 a)
+    have hrange := At_in_range eo hat (by
+        intro t ht
+        exact pr_types (PE.arr lb rb a) p ⟨hlb, hrb, hwa⟩ t (by simpa only [pr] using ht)) (by simp)
+    simp only [List.length_append, List.length_cons, List.length_nil] at hrange K
+    have h0 : tokAt s s.pos = lb := by
+      have := hat 0 (by simp)
+      simpa using this
+    have hata : At s (s.pos + 1) (pr 0 a) := by
+      have := At_append_right (At_append_left hat)
+      simpa using this
+    have hrbt : tokAt s (s.pos + 1 + (pr 0 a).length) = rb := by
+      have := At_append_right hat 0 (by simp)
+      simp only [List.length_append, List.length_cons, List.length_nil, List.getElem_cons_zero, Nat.add_zero] at this
+      rw [← this]; congr 1; omega
+    obtain ⟨g, rfl⟩ : ∃ g, f = g + 3 := ⟨f - 3, by simp only [C] at hf; omega⟩
+    obtain ⟨t0, rest0, ht0, hne0⟩ := pr_head a 0 (Or.inr hwa)
+    have hfirst : tokAt s (s.pos + 1) = t0 := by
+      have := hata 0 (by rw [ht0]; simp)
+      simpa [ht0] using this
+    apply arr_step (f := g + 1)
+    · rw [h0]; exact hlb
+    · apply exprList_nonempty
+      · rw [hfirst]; exact hne0.2
+      · show OK (parseExpression g Gen.LOWEST >>= fun e => exprListLoop g ([] ++ [e])) (s.at (s.pos + 1)) _
+        apply iha (s.at (s.pos + 1)) g [] _ hwa (show EofOK (s.at _) from eo) hata
+        · simp only [at_pos, tokAt_at]
+          rw [hrbt, hrb]
+          exact ⟨by decide, by decide, by decide, by decide, by decide⟩
+        · rw [rem_at]; simp only [rem, C] at hf ⊢; omega
+        · simp only [at_pos, at_at, tokAt_at, List.nil_append]
+          have hpk : s.pos + 1 + (pr 0 a).length - 1 + 1 = s.pos + 1 + (pr 0 a).length := by omega
+          refine ⟨?_, ?_⟩
+          · rw [hpk, hrbt, hrb]; rfl
+          · have := K (g + 2) (by rw [rem_at]; simp only [rem, C] at hf ⊢; omega)
+            rw [h0]
+            rw [show s.pos + (0 + 1 + (pr 0 a).length + 1) - 1 = s.pos + 1 + (pr 0 a).length by omega] at this
+            rw [hpk]
+            exact this
   | aone e ih =>
     refine ⟨fun q p s f Q h => by simp [PE.WF] at h, ?_⟩
     have ih := ih.1
